@@ -237,7 +237,12 @@ fn judge(exp: &[Stp], repeat: bool, c_rel: bool, c_press: bool, obs: &[(u64, Stp
                             Some(tc) => {
                                 if let Some((t_last_step, _)) = obs[..i].last() {
                                     if *t_last_step > tc + 2 && i > round_begin {
-                                        let custom = matches!(obs[i - 1].1, Stp::Uni);
+                                        // custom items trail the key steps by one tick each (known finding): when the
+                                        // cancelling press lands among the trailing custom items of a round, the layout
+                                        // has already finished that round and the press falls into its inter-round gap
+                                        let last_key_step_before_tc = obs[..i].iter().filter(|(t, s)| !matches!(s, Stp::Uni) && *t <= tc).map(|(t, _)| *t).max();
+                                        let trailing_custom = repeat && obs[..i].iter().any(|(t, s)| matches!(s, Stp::Uni) && *t + 3 >= tc && *t <= tc + 3) && last_key_step_before_tc.map(|t| obs[..i].iter().all(|(t2, s2)| !(*t2 > t && *t2 <= tc) || matches!(s2, Stp::Uni))).unwrap_or(false);
+                                        let custom = matches!(obs[i - 1].1, Stp::Uni) || trailing_custom;
                                         return Some((if custom { "custom-step-after-cancel".into() } else { "ran-after-cancel".into() }, format!("macro step at stamp {t_last_step} after the cancelling event at {tc}; {obs:?}")));
                                     }
                                 }
